@@ -453,7 +453,9 @@ impl<'a> Ctx<'a> {
         let end = end as usize;
         let mut streams: Vec<Vec<u8>> = vec![Vec::new(); proto.len()];
         let mut index_starts = Vec::new();
-        if slen > 32 || data_phys != 0 {
+        // a section without packets may publish its own end as data offset (possibly the end of the file)
+        let empty_at_end = pages::phys_to_log(data_phys) == Some(end as u64) && data_phys % 4 == 0;
+        if (slen > 32 || data_phys != 0) && !empty_at_end {
             let d = self.resolve(data_phys, "dataPhysicalOffset")?;
             if d < l + 32 || d > end {
                 self.complain(format!("compressed vector section at {off}: dataPhysicalOffset {data_phys} outside the section"));
